@@ -1,7 +1,132 @@
 import ScVerif.Base.Line
-/-! Driver handler for C13 (stub: replaced by the property's owner). -/
-namespace ScVerif.C13
+import ScVerif.C13.WF
+/-! Driver handler for C13: parses one request line, runs the model, prints the canonical answer.
 
-def handle (_toks : List String) : String := "!bad-op"
+```
+wrap|grpc|legacy|wf <shape> <out-md> <srv-ops> <fin> <cli-ops>
+open stream|invoke <method> <clientStreams> <serverStreams>
+```
+Encodings are those of harness/cmd/c13/script.go. -/
+namespace ScVerif.C13
+open ScVerif.Line
+
+def parseMD? (s : String) : Option MD :=
+  if s = "" || s = "-" then some []
+  else (s.splitOn "+").mapM fun kv =>
+    match kv.splitOn "=" with
+    | [k, v] => if k = "" then none else some (k, v)
+    | _ => none
+
+def parseList? {α : Type} (f : String → Option α) (s : String) : Option (List α) :=
+  if s = "" || s = "-" then some [] else (s.splitOn ",").mapM f
+
+def parseSOp? (t : String) : Option SOp :=
+  match t.toList with
+  | 'H' :: r => (parseMD? (String.ofList r)).map SOp.setHeader
+  | 'S' :: r => (parseMD? (String.ofList r)).map SOp.sendHeader
+  | 'T' :: r => (parseMD? (String.ofList r)).map SOp.setTrailer
+  | 'M' :: r => (parseNat? (String.ofList r)).map SOp.send
+  | ['R'] => some .recv
+  | ['W'] => some .wait
+  | _ => none
+
+def parseCOp? (t : String) : Option COp :=
+  match t.toList with
+  | 's' :: r => (parseNat? (String.ofList r)).map COp.send
+  | ['c'] => some .closeSend
+  | ['r'] => some .recv
+  | ['h'] => some .header
+  | ['t'] => some .trailer
+  | ['x'] => some (.abort .cancel)
+  | ['d'] => some (.abort .deadline)
+  | _ => none
+
+def parseFin? (t : String) : Option Fin :=
+  if t = "OK" then some .ok
+  else match t.toList with
+    | 'P' :: r => some (.plain (String.ofList r))
+    | 'E' :: r =>
+      match (String.ofList r).splitOn ":" with
+      | [c, m] => (parseNat? c).map (fun n => Fin.status n m)
+      | _ => none
+    | _ => none
+
+def parseShape? : String → Option Shape
+  | "unary" => some .unary
+  | "unaryS" => some .unaryS
+  | "sstream" => some .sstream
+  | "cstream" => some .cstream
+  | "bidi" => some .bidi
+  | _ => none
+
+/-- Stable insertion (before the first strictly greater key... of a list built from the right). -/
+def insertKV (p : String × String) : MD → MD
+  | [] => [p]
+  | q :: r => if q.1 < p.1 then q :: insertKV p r else p :: q :: r
+
+/-- Metadata sorted by key, the values of one key in join order (as the harness prints a map). -/
+def canonMD (md : MD) : MD := md.foldr insertKV []
+
+def showMD (md : MD) : String :=
+  "{" ++ "+".intercalate ((canonMD md).map fun kv => kv.1 ++ "=" ++ kv.2) ++ "}"
+
+def showAbort : Abort → String
+  | .cancel => "X"
+  | .deadline => "D"
+
+def showEv : Ev → String
+  | .sent => "ok"
+  | .sendErr => "serr"
+  | .closed => "cl"
+  | .msg m => "m" ++ toString m
+  | .fin c m => if c = 1 then "X" else if c = 4 then "D" else "F" ++ toString c ++ ":" ++ m
+  | .aborted a => showAbort a
+  | .hdr md => "h" ++ showMD md
+  | .trl md => "t" ++ showMD md
+  | .did .cancel => "x"
+  | .did .deadline => "d"
+  | .stuck => "stuck"
+
+def showSEv : SEv → String
+  | .incoming md => "in" ++ showMD md
+  | .got m => "g" ++ toString m
+  | .eof => "eof"
+  | .hErr => "Herr"
+  | .sErr => "Serr"
+  | .abort => "abort"
+  | .left => "left"
+
+def showTranscript (t : Transcript) : String :=
+  ",".intercalate (t.client.map showEv) ++ "|" ++ ",".intercalate (t.server.map showSEv)
+
+def showOpen : Open → String
+  | .ok => "ok"
+  | .unimplemented => "Unimplemented"
+  | .internal => "Internal"
+
+def handleOpt (toks : List String) : Option String :=
+  match toks with
+  | [op, sh, out, srv, fin, cli] => do
+    let shape ← parseShape? sh
+    let out ← parseMD? out
+    let ss ← parseList? parseSOp? srv
+    let fin ← parseFin? fin
+    let cs ← parseList? parseCOp? cli
+    match op with
+    | "wrap" => pure (showTranscript (Wrap.run shape out ss fin cs))
+    | "legacy" => pure (showTranscript (Wrap.runCfg Cfg.legacy shape out ss fin cs))
+    | "grpc" => pure (showTranscript (GrpcRef.run shape out ss fin cs))
+    | "wf" => pure (showBool (WFScripts shape ss fin cs))
+    | _ => none
+  | ["open", via, method, cs, ss] => do
+    let cs ← parseBool? cs
+    let ss ← parseBool? ss
+    match via with
+    | "stream" => pure (showOpen (Conn.newStream testApi method cs ss))
+    | "invoke" => pure (showOpen (Conn.invoke testApi method))
+    | _ => none
+  | _ => none
+
+def handle (toks : List String) : String := (handleOpt toks).getD "!bad-op"
 
 end ScVerif.C13
